@@ -26,7 +26,8 @@ def gen(tier, rng):
                         out.append((l, "request/" + ("https" if url.lower().startswith("https:") else "other-scheme")))
     # status side
     bodies = [b"", b"{}", b"{\"error\":\"unsupported_token_type\"}", b"{\"error\":\"invalid_client\",\"error_description\":\"d\"}", b"not json", b"{\"access_token\":\"t\",\"token_type\":\"bearer\"}",
-              b"{\"error\":\"custom\"} trailing", b"[\"unsupported_token_type\"]", b"{\"error\":5}", b"\xff"]
+              b"{\"error\":\"custom\"} trailing", b"[\"unsupported_token_type\"]", b"{\"error\":5}", b"\xff",
+              b"\xef", b"\xef\xbb", b"\xef\xbb\xbf", b"\xef\xbb\xbf{\"error\":\"invalid_client\"}", b"\xfe\xff", b"{", b"\"", b"\x00", b" "]
     cts = [None, b"application/json", b"text/html", b"\x80"]
     for status in range(100, 600):
         for k in range(2 if tier == "quick" else 10):
